@@ -103,12 +103,30 @@ func VerifC07_TwoKinds() {
 	default:
 		t.order = []string{"a1", "w1", "a2", "w2"}
 	}
-	mA, mW := "RollingInPlace", "RollingInPlace"
-	if rt.Bool("configmaps-recreate") {
-		mA = "RollingRecreate"
+	// each kind rolls in place, rolls by recreation, or is not rolling at all
+	// (plain InPlace: all its children change at once) - at least one kind rolls
+	methods := []string{"RollingInPlace", "RollingRecreate", "InPlace"}
+	mA := methods[rt.Choice("configmaps-method", 3)]
+	nW := 3
+	if mA == "InPlace" {
+		nW = 2
 	}
-	if rt.Bool("widgets-recreate") {
-		mW = "RollingRecreate"
+	mW := methods[rt.Choice("widgets-method", nW)]
+	rolling := func(n string) bool {
+		if verifTwoKindsIsWidget(n) {
+			return mW != "InPlace"
+		}
+		return mA != "InPlace"
+	}
+	nRolling := 0
+	if mA != "InPlace" {
+		nRolling += 2
+	}
+	if mW != "InPlace" {
+		nRolling += 2
+	}
+	if nRolling == 2 {
+		rt.Cover("twokinds/one-kind-not-rolling")
 	}
 	hook := &verifHook{enabled: true, fn: func(req *v1.CompositeHookRequest) (*v1.CompositeHookResponse, error) {
 		x, _, _ := unstructured.NestedString(req.Parent.Object, "spec", "x")
@@ -174,11 +192,19 @@ func VerifC07_TwoKinds() {
 			if before[n] == "2" {
 				rt.Assert(after == "2", "twokinds/child-on-latest-moved-back")
 			}
+			if !rolling(n) {
+				// not a rolling kind: follows the parent at once, is claimed by no revision
+				rt.Assert(after == "2", "twokinds/non-rolling-child-not-updated-at-once")
+				rt.Assert(t.claims(n) == 0, "twokinds/non-rolling-child-claimed-by-a-revision")
+				continue
+			}
 			if before[n] == "1" && after != "1" {
 				left++
-				// hook order: everything in front of it has left the old revision already
+				// hook order: every ROLLING child in front of it has left the old revision already
 				for _, m := range t.order[:i] {
-					rt.Assert(before[m] != "1", "twokinds/child-moved-out-of-hook-order")
+					if rolling(m) {
+						rt.Assert(before[m] != "1", "twokinds/child-moved-out-of-hook-order")
+					}
 				}
 			}
 			rt.Assert(t.claims(n) == 1, "twokinds/child-not-claimed-by-exactly-one-revision")
@@ -191,7 +217,7 @@ func VerifC07_TwoKinds() {
 		v, ok := t.value(n)
 		rt.Assert(ok && v == "2", "twokinds/rollout-did-not-complete-in-9-syncs")
 	}
-	rt.Assert(moved == 4, "twokinds/not-every-child-moved-exactly-once")
+	rt.Assert(moved == nRolling, "twokinds/not-every-rolling-child-moved-exactly-once")
 	rt.Assert(len(t.w.Srv.Revs()) == 1, "twokinds/old-revision-not-pruned")
 	st, _ := t.w.Srv.Peek("things", "ns", "p").Object["status"].(map[string]interface{})
 	_, cstatus, reason, _ := verifC07UpdatedCondition(st)
